@@ -91,8 +91,12 @@ class DataIndexView(BaseDataIndex):
             if node is not None:
                 key, value = node.build(stack)
                 if key and value:
+                    # NOTE: decide before yielding, the consumer may load this
+                    # directory (e.g. by looking up a child) while we are
+                    # suspended, and its keys still have to be yielded.
+                    unloaded = ensure_loaded and self._is_unloaded_dir(value)
                     yield key, value
-                    if ensure_loaded:
+                    if unloaded:
                         yield from self._load_dir_keys(key, value, shallow=shallow)
 
     def _load_dir_keys(
@@ -104,17 +108,20 @@ class DataIndexView(BaseDataIndex):
         # NOTE: traverse() will not enter subtries that have been added
         # in-place during traversal. So for dirs which we load in-place, we
         # need to iterate over the new keys ourselves.
-        if (
+        self._index._load(prefix, entry)
+        if not shallow:
+            for key, val in self._index.iteritems(prefix):
+                if key != prefix and self.filter_fn(key):
+                    yield key, val
+
+    @staticmethod
+    def _is_unloaded_dir(entry: Optional[DataIndexEntry]) -> bool:
+        return bool(
             entry is not None
             and entry.hash_info
             and entry.hash_info.isdir
             and not entry.loaded
-        ):
-            self._index._load(prefix, entry)
-            if not shallow:
-                for key, val in self._index.iteritems(entry.key):
-                    if key != prefix and self.filter_fn(key):
-                        yield key, val
+        )
 
     def iteritems(
         self,
